@@ -1,0 +1,37 @@
+//go:build verif
+
+// Contracts for the verif build tag (comment-only; see /verif/DESIGN.md §4).
+package producer
+
+// ---------------------------------------------------------------------------
+// Kafka publication (C19): one framed message per flow message, in order, on the configured topic
+// ---------------------------------------------------------------------------
+
+//@ pure kpayload(pm *sarama.ProducerMessage) []byte = pm.Value.(sarama.ByteEncoder)
+
+//@ func (kp *KafkaProducer) SendFlowMessage(msg, kafkaDelimitMsgWithLen) ()
+//@   requires kp:   kp != nil && !isnil(kp.producer) && !isnil(msg)
+//@   ensures  one:  chanCount($kafkaInput) <= old(chanCount($kafkaInput)) + 1 && $marshalN == old($marshalN) + 1
+//@   ensures  topic: chanCount($kafkaInput) == old(chanCount($kafkaInput)) + 1 ==> chanAt($kafkaInput, old(chanCount($kafkaInput))) != nil
+//@                   && chanAt($kafkaInput, old(chanCount($kafkaInput))).Topic == kp.input.KafkaTopic && is(chanAt($kafkaInput, old(chanCount($kafkaInput))).Value, sarama.ByteEncoder)
+//@   ensures  framed: kafkaDelimitMsgWithLen && chanCount($kafkaInput) == old(chanCount($kafkaInput)) + 1 && len($lastMarshal) < 4294967296 ==>
+//@                   len(kpayload(chanAt($kafkaInput, old(chanCount($kafkaInput))))) == 4 + len($lastMarshal)
+//@                   && be32(kpayload(chanAt($kafkaInput, old(chanCount($kafkaInput)))), 0) == len($lastMarshal)
+//@                   && (forall q in [4, 4 + len($lastMarshal)): kpayload(chanAt($kafkaInput, old(chanCount($kafkaInput))))[q] == $lastMarshal[q - 4])
+//@   ensures  plain: !kafkaDelimitMsgWithLen && chanCount($kafkaInput) == old(chanCount($kafkaInput)) + 1 ==> kpayload(chanAt($kafkaInput, old(chanCount($kafkaInput)))) == $lastMarshal
+//@   modifies sent($kafkaInput), $lastMarshal, $marshalN
+//@   replay kafka
+
+//@ func (kp *KafkaProducer) PublishIPFIXMessages(msgCh) ()
+//@   requires kp:   kp != nil && !isnil(kp.producer) && !isnil(kp.input.ProtoSchemaConvertor)
+//@   modifies *
+//@   replay kafka
+//@   loop 1 invariant kp: kp != nil && !isnil(kp.producer) && !isnil(kp.input.ProtoSchemaConvertor)
+//@   // per IPFIX message: exactly one marshal (and at most one Kafka message) per flow message the convertor returned, in slice order
+//@   loop 2 invariant cnt: $marshalN == entry($marshalN) + $i && 0 <= $i && $i <= len(flowMsgs) && kp != nil && !isnil(kp.producer) && !isnil(kp.input.ProtoSchemaConvertor)
+//@   loop 2 invariant sent: chanCount($kafkaInput) <= entry(chanCount($kafkaInput)) + $i
+//@   loop 2 invariant nn:  forall i in [0, len(flowMsgs)): !isnil(flowMsgs[i])
+//@   // one marshalled (length-delimited) Kafka message per record of a data message, none for a template message
+//@   loop 1 step permsg: msg != nil && is(msg.set, *entities.set) && msg.set.(*entities.set) != nil ==>
+//@                   $marshalN == prev($marshalN) + (msg.set.(*entities.set).setType == Template ? 0 : len(msg.set.(*entities.set).records))
+//@   callpre (*KafkaProducer).SendFlowMessage delimited: kafkaDelimitMsgWithLen
